@@ -169,6 +169,11 @@ pub fn parse_leaf(t: &mut Toks) -> PResult<LeafX> {
         "i64" => LeafX::I64(t.i64()?),
         "oct" => LeafX::Oct(t.bytes()?),
         "octz" => LeafX::Oct(vec![0u8; t.u64()? as usize]),
+        // n octets of a fixed pattern (octet i = (i * 31 + 7 + i / 251) mod 256): long values whose parts cannot be confused
+        "octp" => {
+            let n = t.u64()? as usize;
+            LeafX::Oct((0..n).map(|i| ((i * 31 + 7 + i / 251) % 256) as u8).collect())
+        }
         "time" => LeafX::Time(t.i64()?),
         "u32" => LeafX::U32(t.u64()?),
         "u64" => LeafX::U64(t.u64()?),
